@@ -1,4 +1,4 @@
-\* thorough: method side with 4 valid method descriptors + 1 instance-write,
+\* thorough: method side with the quick descriptors but
 \* 12 namespace arguments, 12 targets, keys {1,2}, <= 2 instances
 SPECIFICATION Spec
 CONSTANTS
@@ -8,7 +8,7 @@ CONSTANTS
   PragmaCaseSensitive = FALSE
   RecompileExisting = FALSE
   Variant = "none"
-  Provs <- ProvsBigMeth
+  Provs <- ProvsMeth
   NsArgs <- NsArgsBig
   SetupBehs = {"ok", "raise"}
   Targets <- TargetsBig
